@@ -68,7 +68,8 @@ META = {
         "document at hand, never from an attribute the parser object stores itself (a memo that outlives the document). "
         "(R8) Sort keys are total: one comparable kind on all returns, or every label the renderer can create converts with int(). "
         "(R9) The footnote transition is attached only under a guard that looks at the document's children (not first) and "
-        "- when that guard is an all()/any() over the children or a test of one fixed child it must say exactly 'some child is "
+        "- the class test must be quantified over ALL top-level children: applied to one child picked by position, next(), "
+        "min/max or pop() it is a violation; when the guard is an all()/any() over the children it must say exactly 'some child is "
         "neither a footnote nor one of the leading nodes docutils' Transitions transform skips' (title, subtitle - read from "
         "docutils/transforms/misc.py; a docutils superclass such as Titular counts) - and under a test for an existing final transition (not adjacent) whose look-out goes down the tree (advancing loop, "
         "recursion or docutils traversal), because docutils later hoists a transition that ends the last section. "
@@ -2266,12 +2267,45 @@ def _some_child_is_not_a_footnote(f: FunctionInfo, t: ast.expr, holds: bool) -> 
             return None
         words = {("all", False, True): "all children are footnotes", ("any", False, True): "some child is a footnote", ("any", False, False): "no child is a footnote", ("all", True, True): "no child is a footnote", ("all", True, False): "some child is a footnote", ("any", True, False): "all children are footnotes"}
         return f"the transition is only added when {words.get((q, inner_neg, holds), 'a different condition holds')} (`{short(t, 60)}`)"
-    # a single, fixed child decides
+    # the class test is applied to ONE child picked from the document (by position, by next(), by pop())
+    # instead of being quantified over all of them
     ft = _is_footnote_test(f, t)
     if ft is not None:
         subj = _deref(f, ft[0]) if isinstance(ft[0], ast.Name) else ft[0]
-        if isinstance(subj, ast.Subscript) and any(_is_document(x) for x in ast.walk(subj.value)) and isinstance(subj.slice, (ast.Constant, ast.UnaryOp)):
-            return f"one fixed child decides for all of them (`{short(t, 60)}`)"
+        picked = _one_child_picked(f, subj)
+        if picked:
+            return f"one {picked} child decides for all of them (`{short(t, 60)}`)"
+    return None
+
+
+def _one_child_picked(f: FunctionInfo, subj: ast.expr, depth: int = 0) -> str | None:
+    """'fixed' / 'selected' if ``subj`` denotes a single child taken out of the document's children"""
+    if depth > 3:
+        return None
+    subj = _deref(f, subj) if isinstance(subj, ast.Name) else subj
+
+    def over_document(e: ast.AST) -> bool:
+        for x in ast.walk(e):
+            if _is_document(x):
+                return True
+            if isinstance(x, ast.Name) and isinstance(x.ctx, ast.Load) and x.id not in f.params:
+                v = _single_assign(f, x.id)
+                if v is not None and any(_is_document(y) for y in ast.walk(v)):
+                    return True
+        return False
+
+    if isinstance(subj, ast.Subscript) and not isinstance(subj.slice, ast.Slice) and over_document(subj.value):
+        return "fixed" if isinstance(subj.slice, (ast.Constant, ast.UnaryOp)) else "selected"
+    if isinstance(subj, ast.Call):
+        d = dotted(subj.func) or ""
+        if d == "next" and subj.args and over_document(subj.args[0]):
+            return "selected"
+        if d in ("min", "max") and subj.args and over_document(subj.args[0]):
+            return "selected"
+        if isinstance(subj.func, ast.Attribute) and subj.func.attr == "pop" and over_document(subj.func.value):
+            return "selected"
+    if isinstance(subj, ast.IfExp):
+        return _one_child_picked(f, subj.body, depth + 1) or _one_child_picked(f, subj.orelse, depth + 1)
     return None
 
 
@@ -3394,6 +3428,12 @@ def mutants(corpus: Corpus):
             add("c11-transition-guard-looks-at-first-child-only", "C11.R9", tm, n, "not isinstance(self.document.children[0], nodes.footnote)", "not the first element")
             add("c11-transition-guard-looks-at-last-child-only", "C11.R9", tm, n, "not isinstance(self.document.children[-1], nodes.footnote)", "not the first element")
             add("c11-transition-guard-no-child-is-a-footnote", "C11.R9", tm, n, "not any(isinstance(c, nodes.footnote) for c in self.document.children)", "not the first element")
+            # the class test applied to one child picked with next() instead of all children (class of recorded seed C11-f3)
+            cspec = next((x.args[1] for x in ast.walk(n) if isinstance(x, ast.Call) and dotted(x.func) == "isinstance" and len(x.args) == 2), None)
+            if cspec is not None:
+                u_ = " ".join(_seg(tm, cspec).split())
+                add("c11-transition-guard-first-content-child-only", "C11.R9", tm, n, f"not isinstance(next((c for c in self.document.children if not isinstance(c, nodes.title | nodes.subtitle)), self.document.children[0]), {u_})", "not the first element")
+                add("c11-transition-guard-computed-index-child", "C11.R9", tm, n, f"not isinstance(self.document.children[len(self.document.children) // 2], {u_})", "not the first element")
         # the look-out for a final transition stops at the top level (class of seed3 out-c11/3)
         ewt = next((h for _c, h in _helper_calls(cf) if any(_tests_transition(h, x) for x in h.local_nodes())), None)
         wloop = find_node(ewt, lambda n: isinstance(n, (ast.While, ast.For))) if ewt is not None else None
